@@ -238,7 +238,7 @@ def lib_designs():
 def build_lib(spec):
     from . import c04, c02
     if spec["kind"] == "lib":
-        m, ins, clks, outs = c04.SEQ_DESIGNS[spec["name"]]()
+        m, ins, clks, outs, *_rest = c04.SEQ_DESIGNS[spec["name"]]()
         return m, ins + clks + outs, None
     from amaranth.hdl import Module, Signal, Shape, ClockDomain, Cat
     mods = c02.module_terms(True)
